@@ -266,6 +266,10 @@ def check(run, repo, world):
         "NumericResponse.value is an int exactly for a clean frame; "
         "NumericResponseMask.value is 'MASK' for 255 (C06)"]
     mod = repo.mod(MOD)
+    from ..seq import check_stateless
+    check_stateless(run, "R-DT8-STATELESS", mod, [
+        (MOD + "." + n_.name, n_) for n_ in mod.tree.body
+        if isinstance(n_, ast.FunctionDef)], 3)
     COL = "dali.gear.colour."
     GEN = "dali.gear.general."
 
